@@ -395,6 +395,32 @@ Definition params_ok : bool :=
   && (0 <=? C02Sites.tx_access_list_address_gas) && (0 <=? C02Sites.tx_access_list_storage_key_gas)
   && (0 <? C02Sites.minimum_etx_gas_divisor).
 
+(* ---------- a sequence of transactions (the Quai part of a block) ---------- *)
+(* Every transaction starts from the balances the previous one left (after Finalize: no account marked,
+   empty ETX cache); a message refused with a consensus error is not included: its state is discarded. *)
+Record txn := mkTxn { t_inbound : bool; t_env : env; t_msg : msg; t_opq : opaque; t_top : action }.
+Record totals := mkTot { tot_charge : Z; tot_etx : Z; tot_burn : Z; tot_rent : Z; tot_inbound : Z }.
+Definition tot0 : totals := mkTot 0 0 0 0 0.
+Definition charge_of (m : msg) (r : result) : Z :=
+  match r with
+  | RInvalid => 0
+  | RDone used _ =>
+      if m_isETX m then 0
+      else match m_kind m with KNormal => used * m_price m | _ => m_gas m * m_price m end
+  end.
+Definition run_tx (t : txn) (b : bmap) (acc : totals) : bmap * totals :=
+  let '(s', r) := (if t_inbound t then apply_etx else apply_tx) (t_env t) (t_msg t) (t_opq t) (t_top t) (init b) in
+  if is_invalid r then (b, acc)
+  else (bal s',
+        mkTot (tot_charge acc + charge_of (t_msg t) r) (tot_etx acc + etx_total (etx s')) (tot_burn acc + burn s')
+              (tot_rent acc + e_rent (t_env t) * Z.of_nat (List.length (rent s')))
+              (tot_inbound acc + (if t_inbound t then m_value (t_msg t) else 0))).
+Fixpoint run_block (l : list txn) (b : bmap) (acc : totals) : bmap * totals :=
+  match l with
+  | [] => (b, acc)
+  | t :: r => let '(b', acc') := run_tx t b acc in run_block r b' acc'
+  end.
+
 (* ---------- correspondence check ---------- *)
 Record obs := mkObs {
   b_invalid : bool;              (* ApplyMessage returned (nil, err) *)
@@ -414,7 +440,13 @@ Record case := mkCase {
   c_opq : opaque;
   c_top : action;
   c_pre : bmap;                  (* balances of the universe before *)
-  c_obs : obs
+  c_obs : obs;
+  (* block shape: the case's message is applied to the state that earlier messages of the same block left
+     (same StateDB, only Finalize in between).  [c_blkpre] = balances at the start of the block, [c_blk] =
+     the earlier messages (all of them: the model decides itself which are refused and roll back).  For a
+     single-message case [c_blk = []] and [c_blkpre = c_pre]. *)
+  c_blkpre : bmap;
+  c_blk : list txn
 }.
 
 Definition prim_eqb (a b : prim) : bool :=
@@ -454,6 +486,20 @@ Definition hyps_ok (c : case) : bool :=
   && (0 <=? m_nz m) && (0 <=? m_z m) && (0 <=? m_al m) && (0 <=? m_keys m)
   && forallb (fun p => 0 <=? snd p) (c_pre c).
 
+(* the hypotheses of [block_never_creates_value], as booleans *)
+Definition txn_hyps_ok (t : txn) : bool :=
+  let e := t_env t in let m := t_msg t in let o := t_opq t in
+  (0 <=? e_rent e) && wf (t_top t) && (0 <=? m_price m) && (0 <=? m_value m) && (0 <=? m_gas m)
+  && (0 <=? o_gleft o) && (o_gleft o <=? m_gas m) && (0 <=? o_refctr o)
+  && (if m_isETX m then m_price m =? 0 else true) && Bool.eqb (m_isETX m) (t_inbound t).
+Definition blk_hyps_ok (c : case) : bool :=
+  forallb txn_hyps_ok (c_blk c) && forallb (fun p => 0 <=? snd p) (c_blkpre c).
+(* the model, run over the earlier messages of the block from the balances at its start, arrives at the
+   balances the real StateDB shows in front of this message (in particular: an account removed by Finalize
+   holds nothing when a later message brings its address back) *)
+Definition blk_ok (c : case) : bool :=
+  blk_hyps_ok c && bals_agree (c_pre c) (fst (run_block (c_blk c) (c_blkpre c) tot0)).
+
 Definition case_ok (c : case) : bool :=
   let e := c_env c in let m := c_msg c in let b := c_obs c in
   let s0 := init (c_pre c) in
@@ -471,7 +517,8 @@ Definition case_ok (c : case) : bool :=
   && sui_agree (b_sui b) (sui s1)
   && (if is_invalid r then true else zs_eqb (map fst (etx s1)) (b_etx b))
   && prims_eqb (rev (trace s1)) (b_trace b)
-  && negb (bad s1).
+  && negb (bad s1)
+  && blk_ok c.
 
 (* compact syntax for harness-written cases: every numeral is a Z (accounts are converted) *)
 Definition zn (z : Z) : N := Z.to_N z.
@@ -495,33 +542,10 @@ Definition kSuicide (b : Z) : kind := KSuicide (if b <? 0 then None else Some (z
 Definition cEnv bf na pf mx gp := mkEnv bf na pf mx gp 0%N.
 Definition cMsg f v g p x k c nz z al ks := mkMsg (zn f) v g p x k c nz z al ks.
 Definition cObs inv used failed post fin sui etx tr := mkObs inv used failed (zb post) (zb fin) (zl sui) etx tr.
-Definition cCase id inb e m o top pre ob := mkCase (zn id) inb e m o top (zb pre) ob.
+Definition cCase id inb e m o top pre ob := mkCase (zn id) inb e m o top (zb pre) ob (zb pre) [].
+Definition cTxn inb e m o top := mkTxn inb e m o top.
+Definition cCaseB id inb e m o top pre ob blkpre blk := mkCase (zn id) inb e m o top (zb pre) ob (zb blkpre) blk.
 
 Definition mismatches (cs : list case) : list N :=
   map c_id (filter (fun c => negb (case_ok c)) cs).
 
-(* ---------- a sequence of transactions (the Quai part of a block) ---------- *)
-(* Every transaction starts from the balances the previous one left (after Finalize: no account marked,
-   empty ETX cache); a message refused with a consensus error is not included: its state is discarded. *)
-Record txn := mkTxn { t_inbound : bool; t_env : env; t_msg : msg; t_opq : opaque; t_top : action }.
-Record totals := mkTot { tot_charge : Z; tot_etx : Z; tot_burn : Z; tot_rent : Z; tot_inbound : Z }.
-Definition tot0 : totals := mkTot 0 0 0 0 0.
-Definition charge_of (m : msg) (r : result) : Z :=
-  match r with
-  | RInvalid => 0
-  | RDone used _ =>
-      if m_isETX m then 0
-      else match m_kind m with KNormal => used * m_price m | _ => m_gas m * m_price m end
-  end.
-Definition run_tx (t : txn) (b : bmap) (acc : totals) : bmap * totals :=
-  let '(s', r) := (if t_inbound t then apply_etx else apply_tx) (t_env t) (t_msg t) (t_opq t) (t_top t) (init b) in
-  if is_invalid r then (b, acc)
-  else (bal s',
-        mkTot (tot_charge acc + charge_of (t_msg t) r) (tot_etx acc + etx_total (etx s')) (tot_burn acc + burn s')
-              (tot_rent acc + e_rent (t_env t) * Z.of_nat (List.length (rent s')))
-              (tot_inbound acc + (if t_inbound t then m_value (t_msg t) else 0))).
-Fixpoint run_block (l : list txn) (b : bmap) (acc : totals) : bmap * totals :=
-  match l with
-  | [] => (b, acc)
-  | t :: r => let '(b', acc') := run_tx t b acc in run_block r b' acc'
-  end.
